@@ -41,6 +41,10 @@ pub enum Spec {
     Lexicase(usize),
     Weighted(WSpec),
     Dyn(Vec<(Spec, usize)>),
+    /// like `Dyn`, but the list is used for a selection (from an empty population, result ignored)
+    /// before and after every member added: anything the list remembers from being used half-built
+    /// must not survive into the complete list
+    DynGrown(Vec<(Spec, usize)>),
     Ref(Box<Spec>),
     Erased(Box<Spec>),
 }
@@ -57,7 +61,7 @@ impl Spec {
         match self {
             Self::Marker(_) | Self::Best | Self::Worst | Self::Random | Self::Tournament(_) | Self::Lexicase(_) => 1,
             Self::Weighted(w) => 1 + w.depth(),
-            Self::Dyn(v) => 1 + v.iter().map(|(s, _)| s.depth()).max().unwrap_or(0),
+            Self::Dyn(v) | Self::DynGrown(v) => 1 + v.iter().map(|(s, _)| s.depth()).max().unwrap_or(0),
             Self::Ref(s) | Self::Erased(s) => 1 + s.depth(),
         }
     }
@@ -278,14 +282,25 @@ pub fn build_with<R: Res>(spec: &Spec, counters: &mut Counters) -> Result<Sel<R>
         Spec::Tournament(k) => Sel::Tournament(Tournament::new(NonZeroUsize::new((*k).max(1)).unwrap_or(NonZeroUsize::MIN))),
         Spec::Lexicase(c) => Sel::Lexicase(Lexicase::new(*c)),
         Spec::Weighted(w) => Sel::Weighted(Box::new(build_w_with(w, counters)?)),
-        Spec::Dyn(list) => {
+        Spec::Dyn(list) | Spec::DynGrown(list) => {
+            let grown = matches!(spec, Spec::DynGrown(_));
             let mut it = list.iter();
             let Some((first, w0)) = it.next() else {
                 return Ok(Sel::Best);
             };
+            let warm_up = |d: &DynWeighted<Pop<R>>| {
+                if grown {
+                    use rand::SeedableRng;
+                    let nobody: Pop<R> = Vec::new();
+                    let mut rng = rand::rngs::StdRng::seed_from_u64(7);
+                    let _ = d.select(&nobody, &mut rng).is_ok();
+                }
+            };
             let mut d = DynWeighted::new(build_with::<R>(first, counters)?, *w0);
+            warm_up(&d);
             for (s, w) in it {
                 d = d.with_selector(build_with::<R>(s, counters)?, *w);
+                warm_up(&d);
             }
             Sel::Dyn(d)
         }
@@ -374,7 +389,7 @@ pub fn possible(spec: &Spec, n: usize, result_lens: &[usize]) -> Possible {
                 possible_w(w, n, result_lens)
             }
         }
-        Spec::Dyn(list) => {
+        Spec::Dyn(list) | Spec::DynGrown(list) => {
             if list.is_empty() {
                 return possible(&Spec::Best, n, result_lens);
             }
